@@ -43,3 +43,40 @@ pub proof fn lemma_wf_v0<Output: BinaryOutput>(o: &AdtSerializer<Output>, a: &Ad
 {
     reveal(wf_post);
 }
+
+// ---- broadcast forms (used inside generated enum bodies, where the intermediate context of
+// ---- write_constructor is an existential witness that cannot be named)
+pub broadcast proof fn lemma_swrote_trans_b<O: BinaryOutput>(a: &SerializationContext<O>, b: &SerializationContext<O>, c: &SerializationContext<O>, x: Seq<u8>, y: Seq<u8>, t1: Tbl, t2: Tbl)
+    requires
+        #[trigger] swrote(a, b, x, t1),
+        #[trigger] swrote(b, c, y, t2),
+    ensures
+        swrote(a, c, x + y, t2),
+{
+    lemma_swrote_trans(a, b, c, x, y, t1, t2);
+}
+
+pub broadcast proof fn lemma_swrote_facts_b<O: BinaryOutput>(a: &SerializationContext<O>, b: &SerializationContext<O>, x: Seq<u8>, t: Tbl)
+    requires
+        #[trigger] swrote(a, b, x, t),
+    ensures
+        b.owf(),
+        b.state.strs() == t,
+{
+    lemma_swrote_facts(a, b, x, t);
+}
+
+pub broadcast proof fn lemma_wf_v0_b<Output: BinaryOutput>(o: &AdtSerializer<Output>, a: &AdtSerializer<Output>, name: Seq<char>, e: Seq<u8>, t2: Tbl)
+    requires
+        #[trigger] wf_post(o, a, name, e, t2),
+        o.headerless(),
+    ensures
+        a.aswf(),
+        a.headerless(),
+        a.metadata == o.metadata,
+        a.field_indices@ == o.field_indices@,
+        a.last_index_per_chunk@ == o.last_index_per_chunk@,
+        swrote(o.ctx(), a.ctx(), e, t2),
+{
+    lemma_wf_v0(o, a, name, e, t2);
+}
